@@ -7,8 +7,42 @@ ROOT = os.path.dirname(os.path.dirname(os.path.abspath(__file__)))
 BASELINE = "cd /repo && /venv/bin/python -m pytest -ra -q -p no:cacheprovider --timeout=900 --continue-on-collection-errors"
 
 # pid -> (engine, technique, level text, level note, design ref)
+E1 = "kmc-E1-space"
+NOTE_GF2 = ("Reference GF(2)/polynomial arithmetic in kmc/ref (self-tested by setup_cmd against textbook weight enumerators and factorisations). "
+            "Verdicts hold within the stated size bounds; sizes above are covered on enumerated structured families only (evidence.bounds).")
 CLAIMED = {
-    "C18": ("kmc-E1-space",
+    "C01": (E1, "bounded-exhaustive enumeration of the code catalogue x all messages x all words against a GF(2) bitmask reference",
+            "Every constructible encoder of the catalogue (every full-rank generator up to 3x4 / n=5, every systematic P with every information set, "
+            "Hamming, Golay, repetition, SPC, RM, every divisor of X^n+1 as cyclic code, every Bose distance, RS-style, every small H incl. "
+            "rank-deficient ones) is built for real; all 2^k messages are encoded and compared with m.G, rank/orthogonality of the published G and H are "
+            "computed exactly, and calculate_syndrome is observed on all 2^n words (n<=12/16).", NOTE_GF2, "DESIGN.md §5 C01"),
+    "C02": (E1, "bounded-exhaustive enumeration of (code, decoder) pairs x codewords x error patterns of weight <= t / all received words, nearest-codeword oracle",
+            "Each decoder (syndrome table, brute-force ML, Berlekamp-Massey, Reed majority, Hamming and RM inverses) runs on every codeword plus every "
+            "error pattern up to the advertised t (exhaustive when the product is small, structured otherwise) and complete decoders on all 2^n words; "
+            "outputs are compared with the transmitted message / the minimum distance to the encoder's own codebook.", NOTE_GF2, "DESIGN.md §5 C02"),
+    "C03": (E1, "exhaustive enumeration of named-family configurations; exact minimum distance by codeword enumeration or MacWilliams transform of the dual",
+            "For every named configuration the code is rebuilt from what the encoder outputs, its true (n,k,d) is computed exactly and compared with every "
+            "advertised quantity; cyclic families are checked for shift closure and divisibility by the published generator polynomial.", NOTE_GF2, "DESIGN.md §5 C03"),
+    "C04": (E1, "bounded-exhaustive enumeration of catalogue x inverse method x layout x all messages; rejection sub-space for non-multiple last dimensions",
+            "encode followed by inverse_encode / extract_message / project_word on all messages in every layout (1-D, batches, 3-D, 2..4 blocks per row) must "
+            "be the identity with all-zero syndrome; last dimensions that are not multiples must raise.", NOTE_GF2, "DESIGN.md §5 C04"),
+    "C05": ("kmc-E1-space+kmc-E2-bfs", "exhaustive enumeration of symbols/pairs/triples/de Bruijn sequences per scheme and layout + explicit-state BFS over call histories of stateful modems",
+            "Every scheme/order/labelling: all single symbols, all ordered pairs, triples (M<=8), a de Bruijn sequence and all layouts are modulated and hard "
+            "demodulated; for schemes with memory every history of {train, eval, reset, modulate, roundtrip} up to depth 3/4 is explored on real objects "
+            "(whole-object state hash) and the round trip must hold after reset+eval from every reached state.",
+            "Start-up allowances as stated in the property. Float32 bit tensors.", "DESIGN.md §5 C05"),
+    "C06": (E1, "exhaustive enumeration of a dense deterministic grid of received points x noise variances x forms against a float64 max-log reference",
+            "Hard decisions must be a nearest point and soft outputs must equal c*(d1^2-d0^2)/sigma^2 with one positive c per scheme on every grid point, "
+            "both sides of every decision boundary, six decades of sigma^2 (float / 0-d / per-symbol).",
+            "Real-valued input space is continuous: the verdict is for the stated finite grid. Reference uses the scheme's published tables (bijectivity is C14).", "DESIGN.md §5 C06"),
+    "C10": (E1, "bounded-exhaustive enumeration of forest parity-check matrices x decoder options x LLR alphabets against brute-force posteriors / soft-ML",
+            "BP and min-sum on every forest H (n<=4/5 + shard + trees to n=12): all codewords at six magnitudes, all LLR vectors over a 6-letter alphabet vs "
+            "brute-force bitwise posteriors, min-sum rule on single checks, scale invariance; Wagner on every sign pattern x magnitude assignment vs brute-force ML; soft RM.",
+            "Float64 brute-force references; Taylor-arctanh mode only required for |LLR|<=0.5; inputs kept inside the decoder's documented clipping ranges.", "DESIGN.md §5 C10"),
+    "C14": (E1, "fully exhaustive enumeration of constellations, labels, point pairs and of all integers below 2^16/2^20 for the Gray utilities",
+            "All points/labels/pairs of every published constellation; mapper vs table; unit energy; Gray neighbours; Gray utilities for every integer below the bound "
+            "and structured integers to 2^60.", "none beyond float tolerances 1e-5", "DESIGN.md §5 C14"),
+    "C18": (E1,
             "bounded-exhaustive enumeration of operand pairs/triples/elements against an int-bitmask reference model",
             "Every pair of binary polynomials below degree 8 (quick) / 9 (thorough), every triple below degree 5/6, every pair of "
             "GF(2^m) elements for m<=8, every triple for m<=5/6, every element's inverse/power/trace/conjugates/minimal polynomial "
@@ -49,7 +83,7 @@ def main():
         "hooks": {"guard": "KAIRA_VERIF", "enable": "no source hooks: seams are run-time monkey-patches made by the harness (RNG primitives, ThreadPoolExecutor.submit); checks import /repo's working tree through /venv's editable install",
                   "baseline_off_cmd": BASELINE, "source_commits": [], "add_only": True},
         "engines": [
-            {"name": "kmc-E1-space", "path": "kmc/engine.py", "serves_properties": [p for p in CLAIMED if CLAIMED[p][0] == "kmc-E1-space"],
+            {"name": "kmc-E1-space", "path": "kmc/engine.py", "serves_properties": [p for p in CLAIMED if "E1" in CLAIMED[p][0]],
              "kind_free_text": "product-space enumerator: configurations x layouts x input alphabets, sharded over a worker pool, reference model compared on every case"},
             {"name": "kmc-E2-bfs", "path": "kmc/bfs.py", "serves_properties": [p for p in CLAIMED if "E2" in CLAIMED[p][0]],
              "kind_free_text": "explicit-state BFS over operation histories on the real object, whole-object canonical state hash, reference stepped in lock-step"},
